@@ -64,6 +64,13 @@ class C05(props.BaseProp):
                 nn = r.pick([0, 1, 2, 2, 3, 3, 4, 4, 5, 5, 5, 6, 6, 6, 7, 7, 8, 8])
             wmode = "real" if weighted else r.pick(["nan", "mixed", "real"])
             spec, nodes, edges = cg.gen_graph(r, nn, directed, multi, wmode, dense=(nn <= 5))
+            if weighted and not big and r.below(100) < 12:
+                # structured: tie-then-improve gadget (path count must be reset when a strictly shorter
+                # path to an already tentatively reached node is found)
+                names = cg.gen_names(r, 6 + r.below(2))
+                nodes = names if r.below(2) else names[:r.below(4)]
+                edges = cg.gadget_tie_then_improve(r, names)
+                spec = (spec[0], 0, spec[2], 2, 0, 1)
             cases.append({"id": "b%d" % i, "spec": spec, "nodes": nodes, "edges": edges,
                           "weighted": weighted, "normalized": r.below(2) == 1, "withdef": nn <= 8})
         return cases
